@@ -62,6 +62,40 @@ HARNESSES += [
     },
 ]
 
+HARNESSES += [
+    {
+        "name": "now", "props": ["C08"], "src": "h_now.c", "contracts": ["public.h"], "enforce": "now",
+        "what": "now() returns the OS clock in milliseconds (the virtual clock is defined from the timespec the "
+                "clock_gettime contract answers); replaced by this contract everywhere else because 64-bit "
+                "division makes the SAT instances of its callers explode",
+    },
+]
+
+
+def api(name, props, what, **kw):
+    d = {"name": "reproc_" + name, "props": props, "src": "h_api.c", "contracts": ["public.h"],
+         "includes": ["reproc.c"], "enforce": "reproc_" + name, "defs": {"API_" + name: None, "VERIF_MAX_BUF": "(1ul<<40)"},
+         "what": what, "unwind": 4, "replace": ["now"]}
+    d.update(kw)
+    return d
+
+
+HARNESSES += [
+    api("wait", ["C01", "C08", "C14", "C06", "C07", "C05", "C04"],
+        "reproc_wait on a handle in any state satisfying the invariant, any timeout; pipe_poll, expiry, now, "
+        "process_wait, pipe_destroy inlined down to the OS layer"),
+    api("terminate", ["C07", "C06", "C14"], "reproc_terminate on any handle state"),
+    api("kill", ["C07", "C06", "C14"], "reproc_kill on any handle state"),
+    api("pid", ["C14"], "reproc_pid on any handle state"),
+    api("close", ["C02", "C14", "C05", "C06"], "reproc_close, any stream value, any handle state"),
+    api("read", ["C02", "C17", "C14", "C05", "C06"], "reproc_read, any stream value, any size with a matching buffer or NULL"),
+    api("write", ["C02", "C17", "C14", "C05", "C06"], "reproc_write, any size with a matching buffer or NULL"),
+    api("stop", ["C07", "C01", "C14", "C05", "C08", "C15", "C06"],
+        "reproc_stop with reproc_wait/terminate/kill inlined down to the OS layer; the three-iteration loop is "
+        "fully unrolled (unwinding assertion on); every OS-level step is checked by the stop-sequence monitor "
+        "against the plan computed by an independent specification", unwind=5),
+]
+
 ALL_FUNCTIONS = set()
 for _h in HARNESSES:
     if _h.get("enforce"):
